@@ -1003,3 +1003,385 @@ Qed.
 Lemma codon_start_origin_refuted :
   exists g cs, spanning_gene g = true /\ 1 <= cs <= 3 /\ frameshift g cs false = Err E_Assert.
 Proof. exists span_fwd, 2. split; [vm_compute; reflexivity|]. split; [lia|]. vm_compute. reflexivity. Qed.
+
+(* ================= codon_start: what the adjusted location reads ================= *)
+Definition first_exon_len (g : loc) : Z := match g with p :: _ => pe p - ps p | [] => 0 end.
+
+(* the first listed exon, shortened by k bases at its 5' end *)
+Definition shorten (st : Z) (p : part) (k : Z) : part :=
+  if st =? -1 then mkPart (ps p) (pe p - k) st else mkPart (ps p + k) (pe p) st.
+
+Lemma first_outer_bound st p r : first_outermost st (p :: r) ->
+  if st =? -1 then lend (p :: r) = pe p else lstart (p :: r) = ps p.
+Proof.
+  intros [Hp Hout]. destruct (st =? -1); rewrite Forall_forall in Hout.
+  - unfold lend. apply lmax_unique; [left; reflexivity|].
+    intros y Hy. simpl in Hy. destruct Hy as [<-|Hy]; [lia|]. apply in_map_iff in Hy.
+    destruct Hy as [x [<- Hx]]. specialize (Hout x Hx). simpl in Hout. lia.
+  - unfold lstart. apply lmin_unique; [left; reflexivity|].
+    intros y Hy. simpl in Hy. destruct Hy as [<-|Hy]; [lia|]. apply in_map_iff in Hy.
+    destruct Hy as [x [<- Hx]]. specialize (Hout x Hx). simpl in Hout. lia.
+Qed.
+
+Lemma frameshift_shape st p r cs :
+  same_strand st (p :: r) -> first_outermost st (p :: r) -> 1 <= cs <= 3 -> cs - 1 <= pe p - ps p ->
+  frameshift (p :: r) cs false = Ok (shorten st p (cs - 1) :: r).
+Proof.
+  intros Hst Hout Hcs Hlen.
+  destruct (same_strand_cons _ _ _ Hst) as [Hps Hrest].
+  assert (Hstr : lstrand (p :: r) = st) by (apply lstrand_same; [discriminate|assumption]).
+  pose proof (first_outer_bound st p r Hout) as Hb.
+  unfold frameshift. cbv zeta. rewrite Hstr.
+  replace ((0 <=? cs - 1) && (cs - 1 <=? 2)) with true by lia. cbn [negb].
+  unfold shorten. destruct (cs - 1 =? 0) eqn:Hz.
+  - assert (Hk : cs - 1 = 0) by lia. rewrite Hk.
+    unfold adjust_by_offset. destruct (st =? -1); simpl (_ =? 0); cbn iota;
+      rewrite ?Z.sub_0_r, ?Z.add_0_r, <- Hps, part_eta; reflexivity.
+  - unfold adjust_by_offset. rewrite Hstr, Hps. unfold mkFL.
+    destruct (st =? -1) eqn:Est.
+    + replace (- (cs - 1) =? 0) with false by lia.
+      replace ((-2 <=? - (cs - 1)) && (- (cs - 1) <=? 2)) with true by lia. cbn [negb].
+      replace (pe p + - (cs - 1) <? ps p) with false by lia.
+      replace (pe p + - (cs - 1)) with (pe p - (cs - 1)) by lia.
+      destruct r as [|p2 r']; [reflexivity|].
+      replace (pe p =? lend (p :: p2 :: r')) with true by lia. reflexivity.
+    + rewrite Hz. replace ((-2 <=? cs - 1) && (cs - 1 <=? 2)) with true by lia. cbn [negb].
+      replace (pe p <? ps p + (cs - 1)) with false by lia.
+      destruct r as [|p2 r']; [reflexivity|].
+      replace (ps p =? lstart (p :: p2 :: r')) with true by lia. reflexivity.
+Qed.
+
+Lemma part_idx_length p : ps p <= pe p -> length (part_idx p) = Z.to_nat (pe p - ps p).
+Proof.
+  intros H. unfold part_idx. destruct (pst p =? -1); [rewrite rev_length|]; apply zrange_length.
+Qed.
+
+Lemma idx_shorten st p r k : pst p = st -> 0 <= k <= pe p - ps p ->
+  idx (shorten st p k :: r) = skipn (Z.to_nat k) (idx (p :: r)).
+Proof.
+  intros Hps Hk. unfold idx. simpl flat_map. rewrite skipn_app.
+  rewrite part_idx_length by lia.
+  replace (Z.to_nat k - Z.to_nat (pe p - ps p))%nat with 0%nat by lia. cbn [skipn]. f_equal.
+  unfold shorten, part_idx. rewrite Hps. destruct (st =? -1) eqn:Est; cbn [pst ps pe]; rewrite Est.
+  - rewrite skipn_rev. f_equal. rewrite zrange_length.
+    replace (Z.to_nat (pe p - ps p) - Z.to_nat k)%nat with (Z.to_nat (pe p - ps p - k)) by lia.
+    rewrite firstn_zrange by lia. f_equal. lia.
+  - rewrite skipn_zrange by lia. reflexivity.
+Qed.
+
+Lemma llen_shorten st p r k : llen (shorten st p k :: r) = llen (p :: r) - k.
+Proof. rewrite !llen_cons. unfold shorten, plen. destruct (st =? -1); cbn [ps pe]; lia. Qed.
+
+Lemma mono_change_last X : forall lo p q, mono lo (X ++ [p]) -> ps q = ps p -> ps q < pe q ->
+  mono lo (X ++ [q]).
+Proof.
+  induction X as [|x X IH]; intros lo p q Hm H1 H2; simpl in *.
+  - destruct Hm as [Ha [Hb _]]. split; [lia|]. split; [assumption|exact I].
+  - destruct Hm as [Ha [Hb Hc]]. split; [assumption|]. split; [assumption|]. eapply IH; eassumption.
+Qed.
+
+Lemma guard_shorten p r k : guard_gene (p :: r) = true -> 0 <= k < pe p - ps p ->
+  guard_gene (shorten (pst p) p k :: r) = true.
+Proof.
+  unfold guard_gene. rewrite !andb_true_iff. intros [H1 H2] Hk.
+  set (st := pst p) in *. set (q := shorten st p k).
+  assert (Hq : pst q = st) by (unfold q, shorten; destruct (st =? -1); reflexivity).
+  rewrite Hq. apply same_strand_b_spec in H1. apply mono_b_spec in H2.
+  destruct (same_strand_cons _ _ _ H1) as [_ Hrest].
+  assert (Hst' : same_strand st (q :: r)) by (constructor; assumption).
+  split; [apply same_strand_b_spec; assumption|]. apply mono_b_spec.
+  assert (Hstr : lstrand (p :: r) = st) by (apply lstrand_same; [discriminate|assumption]).
+  assert (Hstr' : lstrand (q :: r) = st) by (apply lstrand_same; [discriminate|assumption]).
+  unfold ascending in *. rewrite Hstr in H2. rewrite Hstr'.
+  unfold q, shorten. destruct (st =? -1) eqn:Est.
+  - simpl rev in *. eapply mono_change_last; [exact H2|reflexivity|].
+    cbn [ps pe]. lia.
+  - simpl in *. destruct H2 as [Ha [Hb Hc]]. split; [lia|]. split; [lia|assumption].
+Qed.
+
+Lemma part_contains_trans a b c :
+  part_contains a b = true -> part_contains b c = true -> part_contains a c = true.
+Proof. unfold part_contains. lia. Qed.
+
+Lemma contains_trans a b c : contains a b = true -> contains b c = true -> contains a c = true.
+Proof.
+  unfold contains. rewrite !forallb_forall. intros Hab Hbc x Hx.
+  specialize (Hbc x Hx). apply existsb_exists in Hbc. destruct Hbc as [y [Hy Hyx]].
+  specialize (Hab y Hy). apply existsb_exists in Hab. destruct Hab as [z [Hz Hzy]].
+  apply existsb_exists. exists z. split; [assumption|]. eapply part_contains_trans; eassumption.
+Qed.
+
+Lemma contains_shorten st p r k : Forall okp (p :: r) -> 0 <= k <= pe p - ps p ->
+  contains (p :: r) (shorten st p k :: r) = true.
+Proof.
+  intros Hok Hk. unfold contains. apply forallb_forall. intros x [<-|Hx].
+  - apply existsb_exists. exists p. split; [left; reflexivity|].
+    unfold part_contains, shorten. destruct (st =? -1); cbn [ps pe]; lia.
+  - apply existsb_exists. exists x. split; [right; assumption|].
+    rewrite Forall_forall in Hok. specialize (Hok x (or_intror Hx)). unfold okp in Hok.
+    unfold part_contains. lia.
+Qed.
+
+Lemma guard_okp g : guard_gene g = true -> Forall okp g.
+Proof.
+  intros Hg. destruct (guard_gene_form g Hg) as [st [A [-> [_ [Hm _]]]]].
+  apply Forall_forall. intros x Hx. apply in_gene in Hx.
+  pose proof (mono_okp _ _ Hm) as H. rewrite Forall_forall in H. apply H. assumption.
+Qed.
+
+(* the adjusted location of a gene that does not span the origin reads the annotated location from
+   base codon_start-1 on *)
+Lemma codon_start_reads g cs :
+  guard_gene g = true -> 1 <= cs <= 3 -> cs - 1 <= first_exon_len g ->
+  exists g', frameshift g cs false = Ok g' /\
+    idx g' = skipn (Z.to_nat (cs - 1)) (idx g) /\
+    llen g' = llen g - (cs - 1) /\
+    contains g g' = true /\
+    (forall sq, extract sq g' = skipn (Z.to_nat (cs - 1)) (extract sq g)) /\
+    (cs - 1 < first_exon_len g -> guard_gene g' = true).
+Proof.
+  intros Hg Hcs Hlen. destruct (guard_first_outermost g Hg) as [st [Hst Hout]].
+  destruct g as [|p r]; [discriminate|]. simpl in Hlen.
+  destruct (same_strand_cons _ _ _ Hst) as [Hps _].
+  exists (shorten st p (cs - 1) :: r).
+  split; [apply frameshift_shape; assumption|].
+  assert (Hidx : idx (shorten st p (cs - 1) :: r) = skipn (Z.to_nat (cs - 1)) (idx (p :: r)))
+    by (apply idx_shorten; [assumption|lia]).
+  split; [assumption|]. split; [apply llen_shorten|].
+  split; [apply contains_shorten; [apply guard_okp; assumption|lia]|].
+  split.
+  - intros sq. rewrite (extract_idx st sq (p :: r) Hst).
+    assert (Hst' : same_strand st (shorten st p (cs - 1) :: r)).
+    { constructor; [unfold shorten; destruct (st =? -1); reflexivity|].
+      destruct (same_strand_cons _ _ _ Hst); assumption. }
+    rewrite (extract_idx st sq _ Hst'), Hidx, skipn_map. reflexivity.
+  - intros Hlt. simpl in Hlt. rewrite <- Hps. apply guard_shorten; [assumption|lia].
+Qed.
+
+Lemma sublist_skipn {A} k u v (l : list A) : 0 <= k -> 0 <= u ->
+  sublist u v (skipn (Z.to_nat k) l) = sublist (k + u) (k + v) l.
+Proof.
+  intros Hk Hu. unfold sublist. rewrite skipn_skipn_add.
+  replace (Z.to_nat (k + v - (k + u))) with (Z.to_nat (v - u)) by lia.
+  replace (Z.to_nat k + Z.to_nat u)%nat with (Z.to_nat (k + u)) by lia. reflexivity.
+Qed.
+
+(* with a codon_start offset the sub-location is computed on the adjusted location: it covers the
+   bases cs-1+3s .. cs-1+3e of the ANNOTATED location, and to_biopython restores the latter *)
+Lemma codon_start_subloc g cs s e ea sb :
+  guard_gene g = true -> 1 <= cs <= 3 -> cs - 1 < first_exon_len g ->
+  0 <= s < e -> e <= (llen g - (cs - 1)) / 3 ->
+  exists g' sub, frameshift g cs false = Ok g' /\ get_sub g' ea sb s e = Ok sub /\
+    idx g' = skipn (Z.to_nat (cs - 1)) (idx g) /\
+    contains g sub = true /\ llen sub = 3 * (e - s) /\
+    idx sub = sublist (cs - 1 + 3 * s) (cs - 1 + 3 * e) (idx g) /\
+    (forall sq, extract sq sub = sublist (cs - 1 + 3 * s) (cs - 1 + 3 * e) (extract sq g)) /\
+    (forall sq cod, translate cod (extract sq sub) = sublist s e (translate cod (extract sq g'))) /\
+    frameshift g' cs true = Ok g.
+Proof.
+  intros Hg Hcs Hlt Hs He.
+  destruct (codon_start_reads g cs Hg Hcs) as [g' [Hf [Hidx [Hlen [Hcont [Hex Hg']]]]]]; [lia|].
+  specialize (Hg' Hlt). rewrite <- Hlen in He.
+  destruct (subloc_guard g' s e ea sb Hg' Hs He) as [sub [Hsub [Hc [Hl [Hi [He1 He2]]]]]].
+  exists g', sub. split; [assumption|]. split; [assumption|]. split; [assumption|].
+  split; [eapply contains_trans; eassumption|]. split; [assumption|].
+  split; [rewrite Hi, Hidx; apply sublist_skipn; lia|].
+  split; [intros sq; rewrite He1, Hex; apply sublist_skipn; lia|].
+  split; [assumption|]. apply codon_start_restored; assumption.
+Qed.
+
+(* ================= the loading path of a CDS ================= *)
+Lemma has_dup_false xs : NoDup xs -> has_dup xs = false.
+Proof.
+  induction 1 as [|x r Hx Hr IH]; [reflexivity|]. simpl. rewrite IH, orb_false_r.
+  destruct (existsb (Z.eqb x) r) eqn:E; [|reflexivity].
+  apply existsb_exists in E. destruct E as [y [Hy Hxy]]. apply Z.eqb_eq in Hxy. subst y. contradiction.
+Qed.
+
+Lemma mono_nodup A : forall lo, mono lo A -> NoDup (map pe A).
+Proof.
+  induction A as [|p r IH]; intros lo Hm; [constructor|]. destruct Hm as [H1 [H2 H3]].
+  simpl. constructor; [|eapply IH; eassumption].
+  intros Hin. apply in_map_iff in Hin. destruct Hin as [q [Hq Hin]].
+  destruct (mono_in _ _ _ H3 Hin). lia.
+Qed.
+
+Lemma guard_feature_init g : guard_gene g = true -> feature_init g = Ok tt.
+Proof.
+  intros Hg. destruct (guard_gene_form g Hg) as [st [A [-> [Hne [Hm Hst]]]]].
+  unfold feature_init.
+  assert (Hnd : has_dup (map pe (gene_of st A)) = false).
+  { apply has_dup_false. unfold gene_of. destruct (st =? -1).
+    - rewrite map_rev. apply NoDup_rev. eapply mono_nodup; eassumption.
+    - eapply mono_nodup; eassumption. }
+  rewrite Hnd, andb_false_r.
+  destruct A as [|p A']; [congruence|].
+  assert (Hp : In p (gene_of st (p :: A'))) by (apply in_gene; left; reflexivity).
+  assert (H1 : lstart (gene_of st (p :: A')) <= ps p) by (apply lmin_le, in_map; assumption).
+  assert (H2 : pe p <= lend (gene_of st (p :: A'))) by (apply lmax_ge, in_map; assumption).
+  destruct (mono_in _ _ p Hm (or_introl eq_refl)) as [H3 H4].
+  replace (lend (gene_of st (p :: A')) <? lstart (gene_of st (p :: A'))) with false by lia.
+  assert (H5 : 0 <= lstart (gene_of st (p :: A'))).
+  { assert (Hin : In (lstart (gene_of st (p :: A'))) (map ps (gene_of st (p :: A')))).
+    { apply lmin_in. intros E. apply map_eq_nil in E. rewrite E in Hp. destruct Hp. }
+    apply in_map_iff in Hin. destruct Hin as [q [<- Hq]]. apply in_gene in Hq.
+    destruct (mono_in _ _ q Hm Hq). lia. }
+  replace (lstart (gene_of st (p :: A')) <? 0) with false by lia. reflexivity.
+Qed.
+
+Lemma lend_contains a b : b <> [] -> contains a b = true -> lend b <= lend a.
+Proof.
+  intros Hne Hc. assert (Hin : In (lend b) (map pe b)).
+  { apply lmax_in. intros E. apply map_eq_nil in E. contradiction. }
+  apply in_map_iff in Hin. destruct Hin as [x [Hx Hin]].
+  unfold contains in Hc. rewrite forallb_forall in Hc. specialize (Hc x Hin).
+  apply existsb_exists in Hc. destruct Hc as [y [Hy Hyx]].
+  assert (pe y <= lend a) by (apply lmax_ge, in_map; assumption).
+  unfold part_contains in Hyx. lia.
+Qed.
+
+Lemma translate_length3 cod : forall n x, (length x <= n)%nat ->
+  (3 * length (translate cod x) <= length x)%nat.
+Proof.
+  induction n as [|n IH]; intros x Hn.
+  - destruct x; [simpl; lia|simpl in Hn; lia].
+  - destruct x as [|a [|b [|c r]]]; simpl; try lia.
+    assert (H : (length r <= n)%nat) by (simpl in Hn; lia). specialize (IH r H). simpl in IH. lia.
+Qed.
+
+Lemma translate_nonempty cod x : (3 <= length x)%nat -> translate cod x <> [].
+Proof. destruct x as [|a [|b [|c r]]]; simpl; intros H; try lia. discriminate. Qed.
+
+Lemma take_to_stop_length l : (length (take_to_stop l) <= length l)%nat.
+Proof. induction l as [|x r IH]; simpl; [lia|]. destruct (x =? AA_STOP); simpl; lia. Qed.
+
+Lemma take_to_stop_nostop l : ~ In AA_STOP l -> take_to_stop l = l.
+Proof.
+  induction l as [|x r IH]; intros H; [reflexivity|]. simpl.
+  destruct (x =? AA_STOP) eqn:E.
+  - exfalso. apply H. left. lia.
+  - f_equal. apply IH. intros Hin. apply H. right. assumption.
+Qed.
+
+Lemma idx_length_guard g : guard_gene g = true -> length (idx g) = Z.to_nat (llen g).
+Proof.
+  intros Hg. destruct (guard_gene_form g Hg) as [st [A [-> [_ [Hm Hst]]]]].
+  rewrite (idx_gene st A Hst), llen_gene.
+  destruct (asc_length A (mono_okp _ _ Hm)) as [H _].
+  destruct (st =? -1); [rewrite rev_length|]; assumption.
+Qed.
+
+Lemma extract_length_guard sq g : guard_gene g = true -> length (extract sq g) = Z.to_nat (llen g).
+Proof.
+  intros Hg. destruct (guard_first_outermost g Hg) as [st [Hst _]].
+  rewrite (extract_idx st sq g Hst), map_length. apply idx_length_guard. assumption.
+Qed.
+
+(* the stored residues: translation up to the first stop codon (of everything if that is empty) *)
+Definition stored_seq (full : list Z) : list Z :=
+  match take_to_stop full with [] => full | s => s end.
+
+Lemma stored_seq_length full : (length (stored_seq full) <= length full)%nat.
+Proof.
+  unfold stored_seq. pose proof (take_to_stop_length full).
+  destruct (take_to_stop full); [lia|assumption].
+Qed.
+Lemma stored_seq_nonempty full : full <> [] -> stored_seq full <> [].
+Proof. unfold stored_seq. destruct (take_to_stop full); [tauto|discriminate]. Qed.
+
+(* A CDS annotated with /codon_start on a gene that does not span the origin is loaded: the gene's
+   location is the annotated one shortened by codon_start-1 bases, the translation is generated
+   from exactly that location, and writing it out restores the annotation *)
+Lemma cds_load tbl sq n l cs :
+  guard_gene l = true -> lstrand l = 1 \/ lstrand l = -1 -> 1 <= cs <= 3 ->
+  cs - 1 < first_exon_len l -> lend l <= n -> 3 <= llen l - (cs - 1) ->
+  exists g t0, frameshift l cs false = Ok g /\
+    aa_translation tbl sq n g = Ok t0 /\ t0 <> [] /\
+    cds_from_biopython tbl sq n l cs = Ok (g, mfix t0, cs - 1) /\
+    cds_to_biopython g (cs - 1) = Ok (l, cs) /\
+    (~ In AA_STOP (translate (codon_of tbl) (extract sq g)) ->
+     t0 = map replace_invalid (translate (codon_of tbl) (extract sq g))).
+Proof.
+  intros Hg Hstr Hcs Hlt Hn Hlen.
+  destruct (codon_start_reads l cs Hg Hcs) as [g [Hf [Hidx [Hll [Hcont [Hex Hg']]]]]]; [lia|].
+  specialize (Hg' Hlt).
+  assert (Hgne : g <> []) by (intros ->; discriminate Hg').
+  pose proof (lend_contains l g Hgne Hcont) as Hend.
+  set (full := translate (codon_of tbl) (extract sq g)).
+  assert (Hxl : length (extract sq g) = Z.to_nat (llen g)) by (apply extract_length_guard; assumption).
+  assert (Hfull : full <> []) by (apply translate_nonempty; lia).
+  assert (Haa : aa_translation tbl sq n g = Ok (map replace_invalid (stored_seq full))).
+  { unfold aa_translation. replace (n <? lend g) with false by lia. reflexivity. }
+  exists g, (map replace_invalid (stored_seq full)).
+  split; [assumption|]. split; [assumption|].
+  assert (Hne : map replace_invalid (stored_seq full) <> []).
+  { intros E. apply map_eq_nil in E. revert E. apply stored_seq_nonempty. assumption. }
+  split; [assumption|].
+  assert (Hrest : frameshift g cs true = Ok l) by (apply codon_start_restored; assumption).
+  split; [|split].
+  - unfold cds_from_biopython. cbv zeta. replace (0 <=? cs) with true by lia.
+    assert (Hv : verify_location l = Ok tt).
+    { unfold verify_location. destruct Hstr as [-> | ->]; reflexivity. }
+    rewrite Hv. cbn [any_as_invalid bind]. rewrite Hf. cbn [bind].
+    unfold ensure_translation. replace (n <? lend g) with false by lia.
+    replace (llen g <? 3) with false by lia. rewrite Haa. cbn [as_invalid bind].
+    unfold cds_init. rewrite (guard_feature_init l Hg), Hv. cbn [bind].
+    destruct (map replace_invalid (stored_seq full)) as [|x t] eqn:Et; [congruence|].
+    rewrite <- Et.
+    assert (Hzl : zlen (map replace_invalid (stored_seq full)) * 3 <= llen l).
+    { unfold zlen. rewrite map_length. pose proof (stored_seq_length full).
+      pose proof (translate_length3 (codon_of tbl) _ (extract sq g) (le_n _)). fold full in H0. lia. }
+    replace (llen l <? zlen (map replace_invalid (stored_seq full)) * 3) with false by lia.
+    reflexivity.
+  - unfold cds_to_biopython. replace (cs - 1 <? 0) with false by lia.
+    replace (cs - 1 + 1) with cs by lia. rewrite Hrest. reflexivity.
+  - intros Hns. fold full in Hns |- *. unfold stored_seq. rewrite (take_to_stop_nostop full Hns).
+    clearbody full. destruct full; reflexivity.
+Qed.
+
+Lemma sublist_mfix s e t : 1 <= s -> sublist s e (mfix t) = sublist s e t.
+Proof.
+  intros Hs. unfold sublist, mfix. destruct t as [|x r]; [reflexivity|].
+  destruct (x =? AA_M); [reflexivity|].
+  replace (Z.to_nat s) with (S (Z.to_nat (s - 1))) by lia. reflexivity.
+Qed.
+
+(* end to end: a sub-location inside a CDS loaded with /codon_start lies inside the annotated
+   location, has three bases per residue and translates (stop-free frame, residues after the
+   first, which is stored as M) to exactly that stretch of the stored translation *)
+Lemma cds_load_subloc tbl sq n l cs g t ocs s e :
+  guard_gene l = true -> lstrand l = 1 \/ lstrand l = -1 -> 1 <= cs <= 3 ->
+  cs - 1 < first_exon_len l -> lend l <= n -> 3 <= llen l - (cs - 1) ->
+  cds_from_biopython tbl sq n l cs = Ok (g, t, ocs) ->
+  ~ In AA_STOP (translate (codon_of tbl) (extract sq g)) ->
+  1 <= s < e -> e <= llen g / 3 ->
+  exists sub, get_sub g false false s e = Ok sub /\
+    contains l sub = true /\ llen sub = 3 * (e - s) /\
+    idx sub = sublist (cs - 1 + 3 * s) (cs - 1 + 3 * e) (idx l) /\
+    map replace_invalid (translate (codon_of tbl) (extract sq sub)) = sublist s e t.
+Proof.
+  intros Hg Hstr Hcs Hlt Hn Hlen Hload Hns Hs He.
+  destruct (cds_load tbl sq n l cs Hg Hstr Hcs Hlt Hn Hlen) as [g0 [t0 [Hf [_ [_ [Hl0 [_ Ht0]]]]]]].
+  rewrite Hl0 in Hload. injection Hload as <- <- _. specialize (Ht0 Hns).
+  destruct (codon_start_subloc l cs s e false false Hg Hcs Hlt) as [g1 [sub [Hf1 [Hsub [_ [Hc [Hll [Hi [_ [Htr _]]]]]]]]]];
+    [lia| |].
+  - assert (Hgl : llen g0 = llen l - (cs - 1)).
+    { destruct (codon_start_reads l cs Hg Hcs) as [g2 [Hf2 [_ [H2 _]]]]; [lia|]. congruence. }
+    rewrite <- Hgl. assumption.
+  - assert (g1 = g0) by congruence. subst g1.
+    exists sub. split; [assumption|]. split; [assumption|]. split; [assumption|]. split; [assumption|].
+    rewrite Htr, sublist_mfix by lia. rewrite Ht0. symmetry. apply sublist_map.
+Qed.
+
+(* exons overlapping by one base (programmed frameshift): residue 3 of join{[32:43](+), [42:45](+)}
+   is placed at [41:43] - two bases *)
+Lemma subloc_overlap_refuted :
+  exists g s e sub, slippage_gene g = true /\ 0 <= s < e /\ e <= llen g / 3 /\
+    get_sub g false false s e = Ok sub /\ llen sub <> 3 * (e - s) /\
+    idx sub <> sublist (3 * s) (3 * e) (idx g).
+Proof.
+  exists [mkPart 32 43 1; mkPart 42 45 1], 3, 4, [mkPart 41 43 1].
+  split; [vm_compute; reflexivity|]. split; [lia|]. split; [vm_compute; discriminate|].
+  split; [vm_compute; reflexivity|]. split; [vm_compute; discriminate|].
+  intros H. vm_compute in H. discriminate H.
+Qed.
